@@ -180,6 +180,7 @@ func valFn(tn string, f string) string { return "V." + tn + "." + f }
 
 func cellVar(t types.Type) string { return "Cell." + typeName(t) }
 func elemVar(t types.Type) string { return "Elem." + sortTag(t) }
+
 // maps of different Go types never alias: one domain/value variable per (key sort, element type)
 func mapDomVar(m *types.Map) string {
 	return "MapDom." + string(sortTagS(sortOf(m.Key()))) + "." + sortTag(m.Elem())
@@ -314,8 +315,8 @@ func Ite(c, a, b string) string {
 	return App("ite", c, a, b)
 }
 
-func Sel(a, i string) string      { return App("select", a, i) }
-func Sto(a, i, v string) string   { return App("store", a, i, v) }
+func Sel(a, i string) string    { return App("select", a, i) }
+func Sto(a, i, v string) string { return App("store", a, i, v) }
 func IntLit(n int64) string {
 	if n < 0 {
 		return fmt.Sprintf("(- %d)", -n)
